@@ -307,6 +307,12 @@ def autoparse_family(draw):
     expected_axes = []
     if conv == "comodo":
         axes = draw(st.lists(st.sampled_from(["X", "Y", "Z", "T"]), min_size=2, max_size=4, unique=True))
+        how = draw(st.sampled_from(["float", "float", "str", "list", "arr", "f32"]))   # spelling of the shift attributes
+
+        def shift(x, seq_ok=False):
+            h = how if (seq_ok or how not in ("list", "arr")) else "str"   # a sequence carries no usable number
+            return x if h == "float" else {"num": x, "as": h}
+
         for a in axes:
             n = draw(st.integers(2, 3))
             others = sorted(draw(st.sets(st.sampled_from(gen.OTHER_POS), min_size=1, max_size=2)))
@@ -315,11 +321,11 @@ def autoparse_family(draw):
                 dims[d] = gen.pos_len(n, p)
                 at = {"axis": {"tok": a}}
                 if p == "left":
-                    at["c_grid_axis_shift"] = -0.5
+                    at["c_grid_axis_shift"] = shift(-0.5)
                 elif p == "right":
-                    at["c_grid_axis_shift"] = 0.5
+                    at["c_grid_axis_shift"] = shift(0.5)
                 elif p in ("inner", "outer"):
-                    at["c_grid_axis_shift"] = draw(st.sampled_from([-0.5, 0.5]))
+                    at["c_grid_axis_shift"] = shift(draw(st.sampled_from([-0.5, 0.5])), seq_ok=True)
                 coords[d] = {"values": None, "attrs": at}
             expected_axes.append((a, "center", others[0]))
     else:
